@@ -386,10 +386,14 @@ func c01Binary(e *core.Env) error {
 			out := p.out.String()
 			p.stop()
 			if strings.Contains(out, "panic:") && verdict == "ok" {
-				verdict = "the process panicked: " + lastLines(out, 8)
+				verdict = "the process panicked: " + lastLines(out, 40)
 			}
 		}
-		e.Add(core.Case{Impl: verdict, Spec: "ok", Oracles: oracles, Nontrivial: true, Key: fmt.Sprintf("c01-binary %d %d", rep, e.Seed),
+		class := ""
+		if verdict != "ok" && gojsonCrash(verdict) {
+			class = "C01.gojson_decoder_crash"
+		}
+		e.Add(core.Case{Impl: verdict, Spec: "ok", Oracles: oracles, Nontrivial: true, Class: class, Key: fmt.Sprintf("c01-binary %d %d", rep, e.Seed),
 			Tags: []string{"binary", "whole-program", fmt.Sprintf("batch=%d", batch), fmt.Sprintf("conc=%d", conc)}, Detail: map[string]any{"history": history, "batch": batch, "conc": conc, "start": start}})
 		w.close()
 	}
